@@ -518,8 +518,8 @@ fn main() {
         Spec::L1 { max: 7, len: 4, chunk: 3 },
     ];
     for spec in &big_specs {
-        guard(&run, &format!("lin/{}@Field64", spec.name()), || build::<Field64, _>(spec, LinLen { run: &run, share_counts: vec![1, 2, 3, 5, 16, 254], n_rand: if q { 5 } else { 12 } }).unwrap());
-        guard(&run, &format!("lin/{}@Field128", spec.name()), || build::<Field128, _>(spec, LinLen { run: &run, share_counts: vec![1, 2, 3, 5, 16, 254], n_rand: if q { 5 } else { 12 } }).unwrap());
+        guard(&run, &format!("lin/{}@Field64", spec.name()), || build::<Field64, _>(spec, LinLen { run: &run, share_counts: vec![1, 2, 3, 5, 16, 254, 255, 256, 257, 512], n_rand: if q { 5 } else { 12 } }).unwrap());
+        guard(&run, &format!("lin/{}@Field128", spec.name()), || build::<Field128, _>(spec, LinLen { run: &run, share_counts: vec![1, 2, 3, 5, 16, 254, 255, 256, 257, 512], n_rand: if q { 5 } else { 12 } }).unwrap());
     }
     eprintln!("[{:.1}s] linearity+lengths", run.elapsed());
 
